@@ -40,31 +40,32 @@ def gate_contract(ctx):
     step = lin_diff(dec.target, dec.value)
     if not ob.need(step is not None and step.is_const() and step.constval() == 1, "decrement step is not 1: %s" % dec):
         return
-    # ready drivers
+    # ready drivers, classified by what they do when a new `valid` arrives / while counting down
     term = None
     ok_shape = True
     clears_on_valid = False
+    vk, rk = key(valid), key(ready)
+    load_zero = lkey(literal(Op("==", (load.value, Const(0)))))
     for l in rd:
-        g = litset(vv.guard_lits(l, False))
-        if key(valid) in g:
+        lits = vv.guard_lits(l, False)
+        g = litset(lits)
+        if vk in g:
+            rest = g - {vk}
             if is0(l.value):
                 clears_on_valid = True
-                rest = g - {key(valid)}
-                # may only be skipped when the load value is 0 (txxd == 1)
-                for r in rest:
-                    if not (r.startswith("~") and "==" not in r and lin(load.value) is not None):
-                        pass
             elif is1(l.value):
-                rest = [x for x in vv.guard_lits(l, False) if lkey(x) != key(valid)]
-                # allowed only under "load value == 0"
-                if not (len(rest) == 1 and rest[0][1] is False and lin_eq(rest[0][0], load.value)):
+                if not (rest == {load_zero}):
                     ob.refute("ready-set-on-valid", "gate raises `ready` in the cycle after `valid` although the load value is not "
                               "known to be zero: %s" % l, l.loc, str(l))
             else:
-                ok_shape = False
-        elif g >= {"~" + key(valid), "~" + key(ready)}:
-            rest = [x for x in vv.guard_lits(l, False) if lkey(x) not in ("~" + key(valid), "~" + key(ready))]
-            if is1(l.value) and len(rest) == 1 and rest[0][1] and isinstance(rest[0][0], Op) and rest[0][0].op == "==":
+                # value form  ready <= (load == 0)
+                if lkey(literal(l.value)) == load_zero and not rest:
+                    clears_on_valid = True
+                else:
+                    ok_shape = False
+        elif "~" + vk in g:
+            rest = [x for x in lits if lkey(x) not in ("~" + vk, "~" + rk)]
+            if "~" + rk in g and is1(l.value) and len(rest) == 1 and rest[0][1] and isinstance(rest[0][0], Op) and rest[0][0].op == "==":
                 a, b = rest[0][0].args
                 if key(a) == ck:
                     term = b
@@ -72,10 +73,22 @@ def gate_contract(ctx):
                     term = a
                 else:
                     ok_shape = False
+            elif is0(l.value):
+                pass
             else:
                 ok_shape = False
         else:
-            ok_shape = False
+            # not conditioned on `valid` at all: it can fire in the very cycle a new command re-arms the gate
+            if not is0(l.value):
+                later_clear = [m for m in rd if m.order > l.order and vk in litset(vv.guard_lits(m, False)) and is0(m.value)]
+                if not later_clear:
+                    ob.refute("ready-raised-despite-valid", "`%s` can raise `ready` in a cycle in which `valid` re-arms the gate (it is not conditioned on ~valid "
+                              "and no later assignment clears it): a command accepted exactly when the count-down ends leaves the gate open" % l, l.loc, str(l))
+                if "~" + rk in g:
+                    rest = [x for x in lits if lkey(x) != "~" + rk]
+                    if len(rest) == 1 and rest[0][1] and isinstance(rest[0][0], Op) and rest[0][0].op == "==":
+                        a, b = rest[0][0].args
+                        term = b if key(a) == ck else (a if key(b) == ck else term)
     if not ob.need(ok_shape and term is not None, "ready drivers do not match the gate template: %s" % [str(l) for l in rd]):
         return
     if not clears_on_valid:
